@@ -5,13 +5,14 @@ CONSTANTS
   USel = {"u1"}
   UCtl = {"u1"}
   Versions = {"v1", "v1beta1"}
-  Configs <- CfgSel
+  Configs <- CfgMin
   Policies <- Pol1
   MaxCreates = 2
   MaxFaults = 0
   MaxDel = 1
   Interleave = TRUE
   MidEnv = TRUE
+  BFin = FALSE
   FixBump = FALSE
 VIEW view
 CHECK_DEADLOCK FALSE
